@@ -2,6 +2,8 @@
 """usage: try_controls.py <dir-or-diff>...  : applies each behaviour-preserving patch to a scratch copy of /repo and runs every
 claimed check on it; any VIOLATED line is a false alarm of the machinery. Never touches /repo."""
 import os, sys, json, subprocess, glob, re, tempfile, shutil
+sys.path.insert(0, os.path.dirname(os.path.abspath(__file__)))
+import _runchecks
 VERIF = os.path.dirname(os.path.dirname(os.path.abspath(__file__)))
 S = tempfile.mkdtemp(prefix='pdb-ctl.')
 REPO = os.path.join(S, 'repo'); CACHE = os.path.join(S, 'cache'); PRISTINE = os.path.join(S, 'pristine')
@@ -18,11 +20,10 @@ for f in files:
     if r.returncode != 0:
         print('%-60s DOES NOT APPLY' % os.path.basename(f)); continue
     alarms = []
-    for p in claimed:
-        rr = subprocess.run([os.path.join(VERIF, 'check'), p], cwd=VERIF, env=env, stdout=subprocess.PIPE, stderr=subprocess.STDOUT, text=True)
-        if 'FATAL' in rr.stdout or 'Traceback' in rr.stdout:
-            alarms.append('%s: FATAL %s' % (p, rr.stdout.strip().splitlines()[-1][:150]))
-        for m in re.finditer(r'^VIOLATED \[[^\]]*\] (.*)\n.*\n.*\n   detail   : (.*)$', rr.stdout, re.M):
+    for p, (rc, txt) in sorted(_runchecks.run(claimed, env).items()):
+        if 'FATAL' in txt or 'Traceback' in txt:
+            alarms.append('%s: FATAL %s' % (p, txt.strip().splitlines()[-1][:150]))
+        for m in re.finditer(r'^VIOLATED \[[^\]]*\] (.*)\n.*\n.*\n   detail   : (.*)$', txt, re.M):
             alarms.append('%s  :: %s' % (m.group(1), m.group(2)[:160]))
     tot += len(alarms)
     print('%-60s %s' % (os.path.basename(f), 'silent' if not alarms else '%d ALARM(S)' % len(alarms)))
